@@ -24,6 +24,7 @@ import ast
 
 from ..astutil import (text, access_path, calls_in, func_params, stmts_of, is_const, const_value, method_call, range_bounds,
                        store_targets, fold, single_defs, canon_text)
+from ..astutil import flag_values, oriented
 from ..loader import where, AnalysisError
 from ..paths import Enumerator
 from ..terms import Terms, PathEnv
@@ -74,7 +75,9 @@ def gen_loop(fn):
                 return s, s.target.id, start, stop
         if isinstance(s, ast.While) and G_OPT in text(s.test):
             t = s.test
-            if isinstance(t, ast.Compare) and len(t.ops) == 1 and isinstance(t.ops[0], (ast.Lt, ast.LtE)) and isinstance(t.left, ast.Name):
+            o_ = oriented(t, lambda n_: isinstance(n_, ast.Name) and G_OPT not in text(n_))
+            if o_ is not None and o_[1] in (ast.Lt, ast.LtE):
+                t = ast.Compare(left=o_[0], ops=[o_[1]()], comparators=[o_[2]])
                 var = t.left.id
                 stop = affine_in(t.comparators[0], G_OPT)
                 if stop is None:
@@ -489,10 +492,8 @@ def r6_acceptance(ctx, repo):
                    "compared member %s not recognised" % ox, key="scan")
         return
     for p in paths:
-        verdict = None
-        for e in p.events:
-            if e.kind == "guard" and isinstance(e.node, ast.Compare) and access_path(e.node.left) == flag and is_const(e.node.comparators[0]) and isinstance(e.node.ops[0], ast.Eq) and e.val:
-                verdict = const_value(e.node.comparators[0])
+        fv = flag_values(p.events, flag, (0, 1, 2))
+        verdict = next(iter(fv)) if len(fv) == 1 else None
         apps = [(access_path(method_call(c)[0]), access_path(c.args[0])) for e in p.events if e.kind == "stmt" for c in calls_in(e.node)
                 if method_call(c) and method_call(c)[1] == "append" and c.args]
         sets = [(access_path(e.node.targets[0]), const_value(e.node.value)) for e in p.events if e.kind == "stmt" and isinstance(e.node, ast.Assign)
